@@ -35,6 +35,9 @@ func init() {
 	mutant(&Mutant{Name: "c03-omit-span-end", Property: "C03", File: "html/html.go",
 		Old: "t.Hash == Rb || t.Hash == Rt || t.Hash == Rtc || t.Hash == Rp {", New: "t.Hash == Rb || t.Hash == Rt || t.Hash == Rtc || t.Hash == Rp || t.Hash == Span {",
 		Rule: "R03.2", Construct: "unconditional"})
+	mutant(&Mutant{Name: "c03-lookahead-skips-template", Property: "C03", File: "html/html.go",
+		Old: "\t\t\t\t\t\t\tif next.TokenType == html.TextToken && parse.IsAllWhitespace(next.Data) {\n\t\t\t\t\t\t\t\tcontinue\n", New: "\t\t\t\t\t\t\tif next.TokenType == html.TextToken && parse.IsAllWhitespace(next.Data) || next.TokenType == html.TemplateToken {\n\t\t\t\t\t\t\t\tcontinue\n",
+		Rule: "R03.4", Construct: "look-ahead skips TemplateToken"})
 	mutant(&Mutant{Name: "c03-attr-unescaped", Property: "C03", File: "html/html.go",
 		Old: "\t\t\t\t\t\tval = html.EscapeAttrVal(&attrByteBuffer, val, quote, o.KeepQuotes || isXML)\n", New: "\t\t\t\t\t\tif quote != 0 || len(val) > 3 {\n\t\t\t\t\t\t\tval = html.EscapeAttrVal(&attrByteBuffer, val, quote, o.KeepQuotes || isXML)\n\t\t\t\t\t\t}\n",
 		Rule: "R03.3", Construct: "attribute value"})
@@ -52,6 +55,90 @@ func runC03(c *Ctx) {
 	c.r031(pk, fd)
 	c.r032(pk, fd)
 	c.r033(pk, fd)
+	c.r034(pk, fd)
+}
+
+// R03.4: the end-tag-omission look-ahead only skips tokens that leave no trace in the output.
+func (c *Ctx) r034(pk *packages.Package, fd *ast.FuncDecl) {
+	const rule = "R03.4"
+	c.R.Rule(rule, "in the look-ahead loops that decide end-tag omission (loops over tb.Peek(i) that contain `omitEndTag = true`), the true outcome of a test next.TokenType == html.X may lead to the loop's `continue` (token skipped, decision taken on a later token) only for X = TextToken (whitespace-only / ignored text), and for X = CommentToken only if that outcome is unreachable when o.KeepComments or o.KeepSpecialComments is set: a token that is written to the output stands between the omitted end tag and the token the decision was based on, and the tree builder does not close the element on it")
+	info := pk.TypesInfo
+	g := c.graph(pk, fd)
+	loops := 0
+	ast.Inspect(fd.Body, func(x ast.Node) bool {
+		fs, ok := x.(*ast.ForStmt)
+		if !ok {
+			return true
+		}
+		hasOmit := flow.Contains(fs.Body, func(y ast.Node) bool {
+			as, ok := y.(*ast.AssignStmt)
+			return ok && len(as.Lhs) == 1 && str(as.Lhs[0]) == "omitEndTag"
+		})
+		hasPeek := flow.Contains(fs.Body, func(y ast.Node) bool {
+			call, ok := y.(*ast.CallExpr)
+			return ok && strings.HasSuffix(str(call.Fun), ".Peek")
+		})
+		if !hasOmit || !hasPeek || flow.Contains(fs.Body, func(y ast.Node) bool { f2, ok := y.(*ast.ForStmt); return ok && f2 != fs }) {
+			return true
+		}
+		loops++
+		inLoop := func(n *flow.Node) bool {
+			a := n.Ast()
+			if a == nil && n.Of != nil {
+				a = n.Of.Ast()
+			}
+			return a == nil || fs.Body.Pos() <= a.Pos() && a.End() <= fs.Body.End()
+		}
+		isCont := func(y *flow.Node) bool {
+			b, ok := y.Stmt.(*ast.BranchStmt)
+			return y.Kind == flow.KStmt && ok && b.Tok == token.CONTINUE && inLoop(y)
+		}
+		for _, n := range g.Nodes {
+			if n.Kind != flow.KCond || !inLoop(n) {
+				continue
+			}
+			b, ok := ast.Unparen(n.Expr).(*ast.BinaryExpr)
+			if !ok || b.Op != token.EQL || !strings.HasSuffix(str(b.X), ".TokenType") {
+				continue
+			}
+			tok := tokenName(b.Y)
+			var tn *flow.Node
+			for _, s := range n.Succs {
+				if s.Kind == flow.KTrue {
+					tn = s
+				}
+			}
+			isOtherTokTest := func(y *flow.Node) bool {
+				if y.Kind != flow.KCond || y == n {
+					return false
+				}
+				bb, ok := ast.Unparen(y.Expr).(*ast.BinaryExpr)
+				return ok && strings.HasSuffix(str(bb.X), ".TokenType")
+			}
+			p := g.Path(flow.Search{From: []*flow.Node{tn}, Goal: isCont, Avoid: func(y *flow.Node) bool { return !inLoop(y) || isOtherTokTest(y) }})
+			if p == nil {
+				continue
+			}
+			construct := fmt.Sprintf("html.Minifier.Minify/%s/look-ahead skips %s", c.caseLabel(fs), tok)
+			switch tok {
+			case "TextToken":
+				c.R.OK(rule, construct, c.pos(n.Expr), "whitespace-only / ignored text leaves no trace")
+			case "CommentToken":
+				bad := ""
+				for _, key := range []string{"o.KeepComments", "o.KeepSpecialComments"} {
+					if pp := unreachableWhen(g, tn, key, true); pp != nil {
+						bad = key
+					}
+				}
+				c.R.Check(bad == "", rule, construct, c.pos(n.Expr), "only when comments are dropped", "a comment that is kept in the output ("+bad+") is skipped by the look-ahead: `<div><p>x</p><!--c--></div>` loses </p> and the comment re-parses inside the paragraph")
+			default:
+				c.R.Bad(rule, construct, c.pos(n.Expr), "a "+tok+" is skipped when deciding whether the end tag may be omitted, although it is written to the output between the omitted end tag and the token the decision is based on")
+			}
+		}
+		return true
+	})
+	c.R.Floor(rule, "end-tag look-ahead loops", loops, 2)
+	_ = info
 }
 
 func (c *Ctx) r031(pk *packages.Package, fd *ast.FuncDecl) {
